@@ -63,9 +63,11 @@ def harnesses(ctx):
 
 def replay(ctx, h, r, ins, tr):
     last = (tr or {}).get('last', {})
-    if h.name != 'eqrel.lower_bound':
-        return None, 'no native replay for getBoundaries (compiled path)'
+    compiled = h.name != 'eqrel.lower_bound'
     try:
+        if compiled:
+            k = int(h.name[-1])
+            last = dict(last, in_b0='1' if k >= 1 else '0', in_b1='1' if k >= 2 else '0')
         b0 = 1 if str(last.get('in_b0')).upper().startswith('T') or str(last.get('in_b0')) == '1' else 0
         b1 = 1 if str(last.get('in_b1')).upper().startswith('T') or str(last.get('in_b1')) == '1' else 0
         v0, v1 = int(last.get('in_v0')), int(last.get('in_v1'))
@@ -76,8 +78,8 @@ def replay(ctx, h, r, ins, tr):
                         os.path.join(HERE, '..', '..', 'replay', 'eqrel', 'replay.cpp'), '-o', exe], stdout=subprocess.PIPE, stderr=subprocess.STDOUT)
     if p.returncode != 0:
         return None, 'native replay build failed: ' + p.stdout.decode()[:400]
-    q = subprocess.run([exe, str(b0), str(b1), str(v0), str(v1)], stdout=subprocess.PIPE, stderr=subprocess.STDOUT)
-    return q.returncode == 1, 'real EquivalenceRelation::lower_bound, mask=%d%d v0=%d v1=%d: %s' % (b0, b1, v0, v1, q.stdout.decode().strip())
+    q = subprocess.run([exe, str(b0), str(b1), str(v0), str(v1), '1' if compiled else '0'], stdout=subprocess.PIPE, stderr=subprocess.STDOUT)
+    return q.returncode == 1, 'real EquivalenceRelation::%s, mask=%d%d v0=%d v1=%d: %s' % ('getBoundaries<k>' if compiled else 'lower_bound', b0, b1, v0, v1, q.stdout.decode().strip())
 
 
 ASSUMPTIONS = [
